@@ -184,6 +184,9 @@ def explore(prop, tier, rep, cases, precomputed=None):
         ds, st = hist.analyze(c, r, s)
         for k, v in st.items():
             agg[k] = agg.get(k, 0) + v
+        for ro in (r.get('steps') or []):
+            for k_, v_ in (ro.get('spelled') or {}).items():
+                agg['spelled_' + k_] = agg.get('spelled_' + k_, 0) + v_
         rep.count('evaluations')
         k = nontrivial_key(c, st)
         if k:
@@ -258,6 +261,11 @@ def run_hist_prop(prop, tier, salt, n_quick, n_thorough, families=gen.SCENARIOS,
     if extra_cases:
         cases += extra_cases(tier, ds)
     cases += random_cases(tier, n_quick, n_thorough, salt, prof=prof, dirsize=ds, **kw)
+    # C07: every path handed to the library is spelled differently at every occurrence (relative, bytes,
+    # PathLike, redundant separators, '.', '..', trailing separator); the model sees the normalised path
+    for i, c in enumerate(cases):
+        if not str(c.get('seed', '')).startswith('corpus:') and (prop == 'C07' or i % 4 == 0):
+            c['spell'] = core.seed() * 7919 + i
     explore(prop, tier, rep, cases)
     return finish(prop, rep, gate)
 
